@@ -16,8 +16,6 @@
 
 static void pv(const mjtNum* x, int n) { for (int i = 0; i < n; i++) printf(" %a", x[i]); }
 
-// engine-internal but exported
-mjtNum mj_actuatorDamping(const mjModel* m, mjtObj type, int id, mjtNum poly[mjNPOLY]);
 
 static mjtNum spring_energy(mjModel* m, mjData* d) {
   mjtNum g[3]; mju_copy3(g, m->opt.gravity);
@@ -52,6 +50,39 @@ static void model_case(unsigned long long seed, unsigned feat, int nbody, int va
     if (mjg_chance(r, 0.6)) { t->damping[0] = mjg_range(r, 0, 1); if (mjg_chance(r, 0.5)) { t->damping[1] = mjg_range(r, 0, 1); t->damping[2] = mjg_range(r, 0, 1); } }
     if (mjg_chance(r, 0.5)) { t->springlength[0] = mjg_range(r, -0.3, 0); t->springlength[1] = t->springlength[0] + mjg_range(r, 0, 0.4); }
   }
+  // actuator-inherited damping: several damped actuators on the same joint / tendon (the compiler then stores the
+  // "several actuators" sentinel), gears of both signs and magnitudes != 1, zero / linear / polynomial coefficients;
+  // also single damped actuators and undamped companions
+  {
+    mjsJoint* sj[64]; int nsj = 0;
+    for (mjsElement* e = mjs_firstElement(s, mjOBJ_JOINT); e; e = mjs_nextElement(s, e)) {
+      mjsJoint* j = mjs_asJoint(e);
+      if (j && (j->type == mjJNT_HINGE || j->type == mjJNT_SLIDE) && nsj < 64) sj[nsj++] = j;
+    }
+    mjsTendon* st[16]; int nst = 0;
+    for (mjsElement* e = mjs_firstElement(s, mjOBJ_TENDON); e; e = mjs_nextElement(s, e)) {
+      mjsTendon* t = mjs_asTendon(e); if (t && nst < 16) st[nst++] = t;
+    }
+    int ngroups = (variant % 3 == 0) ? 0 : 1 + mjg_int(r, 3), na_extra = 0;
+    for (int gidx = 0; gidx < ngroups && (nsj || nst); gidx++) {
+      int on_tendon = nst > 0 && (nsj == 0 || mjg_chance(r, 0.35));
+      const char* target = on_tendon ? mjs_getString(mjs_getName(st[mjg_int(r, nst)]->element))
+                                     : mjs_getString(mjs_getName(sj[mjg_int(r, nsj)]->element));
+      int cnt = 1 + mjg_int(r, 3);
+      for (int k = 0; k < cnt; k++) {
+        mjsActuator* a = mjs_addActuator(s, NULL);
+        char nmb[32]; snprintf(nmb, sizeof(nmb), "dmp%d", na_extra++); mjs_setName(a->element, nmb);
+        a->trntype = on_tendon ? mjTRN_TENDON : mjTRN_JOINT;
+        mjs_setString(a->target, target);
+        mjs_setToMotor(a);
+        static const double gears[8] = {1, -1, 2, -2.5, 0.5, -0.3, 3, 0.1};
+        a->gear[0] = gears[mjg_int(r, 8)];
+        if (mjg_chance(r, 0.8)) a->damping[0] = mjg_range(r, 0.05, 2);
+        if (mjg_chance(r, 0.4)) { a->damping[1] = mjg_range(r, 0, 1); a->damping[2] = mjg_range(r, 0, 0.5); }
+        if (mjg_chance(r, 0.2)) a->armature = mjg_range(r, 0.001, 0.05);
+      }
+    }
+  }
   if (variant % 5 == 1) s->option.disableflags |= mjDSBL_SPRING;
   if (variant % 5 == 2) s->option.disableflags |= mjDSBL_DAMPER;
   s->option.enableflags |= mjENBL_ENERGY;
@@ -67,7 +98,7 @@ static void model_case(unsigned long long seed, unsigned feat, int nbody, int va
   mj_forward(m, d);
   int es = !(m->opt.disableflags & mjDSBL_SPRING), ed = !(m->opt.disableflags & mjDSBL_DAMPER);
   int gc_on = m->flg_gravcomp && !(m->opt.disableflags & mjDSBL_GRAVITY) && mju_norm3(m->opt.gravity) != 0;
-  printf("M OK nv %d nj %d nt %d nb %d es %d ed %d gc %d g1 %d rest %d gravity", nv, nj, nt, nb, es, ed, gc_on, g1, rest);
+  printf("M OK nv %d nj %d nt %d nb %d nact %d es %d ed %d gc %d g1 %d rest %d gravity", nv, nj, nt, nb, m->nactuator, es, ed, gc_on, g1, rest);
   pv(m->opt.gravity, 3); printf("\n");
   for (int j = 0; j < nj; j++) {
     int t = m->jnt_type[j], padr = m->jnt_qposadr[j];
@@ -75,16 +106,21 @@ static void model_case(unsigned long long seed, unsigned feat, int nbody, int va
     printf("J %d %d", t, m->jnt_dofadr[j]); pv(m->jnt_stiffness + j, 1); pv(m->jnt_stiffnesspoly + mjNPOLY * j, mjNPOLY);
     pv(d->qpos + padr, n); pv(m->qpos_spring + padr, n); printf("\n");
   }
+  // raw damping data: the actuator-inherited part is NOT taken from mj_actuatorDamping but recomputed downstream
   for (int v = 0; v < nv; v++) {
-    mjtNum poly[mjNPOLY]; mju_copy(poly, m->dof_dampingpoly + mjNPOLY * v, mjNPOLY);
-    mjtNum damping = m->dof_damping[v] + mj_actuatorDamping(m, mjOBJ_JOINT, m->dof_jntid[v], poly);
-    printf("D"); pv(&damping, 1); pv(poly, mjNPOLY); pv(d->qvel + v, 1); printf(" %d\n", m->jnt_actgravcomp[m->dof_jntid[v]]);
+    int j = m->dof_jntid[v];
+    printf("D"); pv(m->dof_damping + v, 1); pv(m->dof_dampingpoly + mjNPOLY * v, mjNPOLY); pv(d->qvel + v, 1);
+    printf(" %d %d %d\n", m->jnt_actgravcomp[j], j, m->jnt_actuatorid[j]);
+  }
+  for (int i = 0; i < m->nactuator; i++) {
+    printf("AC %d %d", m->actuator_trntype[i], m->actuator_trnid[2 * i]);
+    pv(m->actuator_gear + 6 * m->actuator_outadr[i], 1); pv(m->actuator_damping + i, 1); pv(m->actuator_dampingpoly + mjNPOLY * i, mjNPOLY);
+    printf("\n");
   }
   mjtNum* row = (mjtNum*)calloc(3 * nv + 1, sizeof(mjtNum));
   for (int i = 0; i < nt; i++) {
-    mjtNum dpoly[mjNPOLY]; mju_copy(dpoly, m->tendon_dampingpoly + mjNPOLY * i, mjNPOLY);
-    mjtNum damping = m->tendon_damping[i] + mj_actuatorDamping(m, mjOBJ_TENDON, i, dpoly);
-    printf("T"); pv(m->tendon_stiffness + i, 1); pv(m->tendon_stiffnesspoly + mjNPOLY * i, mjNPOLY); pv(&damping, 1); pv(dpoly, mjNPOLY);
+    printf("T"); pv(m->tendon_stiffness + i, 1); pv(m->tendon_stiffnesspoly + mjNPOLY * i, mjNPOLY);
+    pv(m->tendon_damping + i, 1); pv(m->tendon_dampingpoly + mjNPOLY * i, mjNPOLY);
     pv(d->ten_length + i, 1); pv(d->ten_velocity + i, 1); pv(m->tendon_lengthspring + 2 * i, 2);
     mju_zero(row, nv);
     for (int k = 0; k < m->ten_J_rownnz[i]; k++) row[m->ten_J_colind[m->ten_J_rowadr[i] + k]] += d->ten_J[m->ten_J_rowadr[i] + k];
